@@ -30,6 +30,8 @@ const (
 	pkFloat64
 	pkInt8
 	pkIfaces // []interface{}
+	pkInt32s // []int32
+	pkBytes  // []byte
 )
 
 type vpSig struct {
@@ -54,6 +56,8 @@ var vpSigs = []vpSig{
 	{"hNums", []int{pkInt8, pkFloat64}, false, false},
 	{"hNoArgs", nil, false, false},
 	{"hCtxVar", []int{pkString}, true, true},
+	{"hInt32s", []int{pkInt32s}, false, false},
+	{"hBytes", []int{pkBytes}, false, false},
 }
 
 // vpCtx is a distinguishable context value (context.WithValue needs reflectlite).
@@ -128,6 +132,15 @@ func vpHostFuncs(l *vpCallLog, ctx context.Context) map[string]interface{} {
 			return 1, nil
 		},
 		"hNoArgs": func() (int, error) { l.add("hNoArgs()"); return 1, nil },
+		"hInt32s": func(xs []int32) (int, error) {
+			parts := make([]string, len(xs))
+			for i, x := range xs {
+				parts[i] = strconv.Itoa(int(x))
+			}
+			l.add("hInt32s(" + vpFmtStrings(parts) + ")")
+			return 1, nil
+		},
+		"hBytes": func(xs []byte) (int, error) { l.add("hBytes(" + strconv.Itoa(len(xs)) + ")"); return 1, nil },
 		"hCtxVar": func(c context.Context, rest ...string) (int, error) {
 			l.ctxOK = c == ctx
 			l.add("hCtxVar(" + vpFmtStrings(rest) + ")")
@@ -277,6 +290,14 @@ func vpConvArg(a vpArg, pk int) (string, bool) {
 			return "[1|2]", true
 		}
 		return "", false
+	case pkInt32s:
+		// arrays element-wise; a string is not an array
+		if a.kind == avNumArr {
+			return "[1|2]", true
+		}
+		return "", false
+	case pkBytes:
+		return "", false // (number arrays: don't-care, see the caller; nothing else is an array of bytes)
 	case pkMapInt:
 		if a.kind == avMap {
 			return "k=3,n=1", true
@@ -360,6 +381,9 @@ func VP_C11_hostcalls() {
 			if pk == pkString && (a.kind == avStrArr || a.kind == avNumArr || a.kind == avMap || a.kind == avTime) {
 				dontCare = true // "anything to string by formatting": the exact text of composites is not specified
 			}
+			if pk == pkBytes && a.kind == avNumArr {
+				dontCare = true // numbers to unsigned 8-bit elements: the statement speaks of Go integers by truncation, the code refuses unsigned kinds
+			}
 			s, ok := vpConvArg(a, pk)
 			if !ok {
 				wantErr = true
@@ -389,7 +413,7 @@ func VP_C11_hostcalls() {
 	if len(log.entries) == 1 {
 		want := sig.name + "("
 		switch {
-		case sig.name == "hMap" || sig.name == "hTime" || sig.name == "hBool" || sig.name == "hString" || sig.name == "hIface" || sig.name == "hStrings" || sig.name == "hInts":
+		case sig.name == "hMap" || sig.name == "hTime" || sig.name == "hBool" || sig.name == "hString" || sig.name == "hIface" || sig.name == "hStrings" || sig.name == "hInts" || sig.name == "hInt32s":
 			want += parts[0]
 		case sig.name == "hNoArgs":
 		case sig.variadic:
@@ -530,4 +554,137 @@ func VP_C11_history() {
 		vpAssert("C11/history/left-error-aborts-before-right", e != nil && calls == 0 && len(log) == 0)
 	}
 	vpReach("C11/history/done")
+}
+
+func init() {
+	vpHarnesses["VP_C11_nested"] = VP_C11_nested
+}
+
+// C11/nested: arguments are evaluated left to right and each call receives its
+// own arguments, also when an argument is itself a call and when the runner
+// has evaluated calls before (earlier evaluation, or earlier in the formula).
+func VP_C11_nested() {
+	var log []string
+	add := func(s string) { log = append(log, s) }
+	it := strconv.Itoa
+	data := map[string]interface{}{
+		"f3": func(a, b, c int) (int, error) { add("f3(" + it(a) + "," + it(b) + "," + it(c) + ")"); return a + b + c, nil },
+		"g1": func(x int) (int, error) { add("g1(" + it(x) + ")"); return x + 1, nil },
+		"g2": func(x, y int) (int, error) { add("g2(" + it(x) + "," + it(y) + ")"); return x + y, nil },
+		"v3": func(a int, rest ...int) (int, error) {
+			s := "v3(" + it(a)
+			for _, r := range rest {
+				s += "," + it(r)
+			}
+			add(s + ")")
+			return a + len(rest), nil
+		},
+	}
+	pool := []struct {
+		f    string
+		want []string
+		val  float64
+	}{
+		{"f3(1, g1(4), 3)", []string{"g1(4)", "f3(1,5,3)"}, 9},
+		{"f3(g1(4), 2, 3)", []string{"g1(4)", "f3(5,2,3)"}, 10},
+		{"f3(1, 2, g1(4))", []string{"g1(4)", "f3(1,2,5)"}, 8},
+		{"f3(1, g2(2, g1(3)), 4)", []string{"g1(3)", "g2(2,4)", "f3(1,6,4)"}, 11},
+		{"f3(g1(1), g1(2), g1(3))", []string{"g1(1)", "g1(2)", "g1(3)", "f3(2,3,4)"}, 9},
+		{"v3(1, g1(4), 3, g2(1, 1))", []string{"g1(4)", "g2(1,1)", "v3(1,5,3,2)"}, 4},
+		{"g2(7, f3(1, g1(1), 1))", []string{"g1(1)", "f3(1,2,1)", "g2(7,4)"}, 11},
+	}
+	p := pool[vpChoice("f", len(pool))]
+	r := NewRunner()
+	r.SetThis(data)
+	src := p.f
+	pre := vpChoice("pre", 3)
+	switch pre {
+	case 1: // an earlier evaluation by the same runner
+		if c0, perr := ParseSourceCode([]byte("f3(9, 8, 7)")); perr == nil {
+			r.Resolve(context.Background(), c0.Expression)
+		}
+		log = nil
+	case 2: // an earlier call in the same formula
+		src = "(g2(9, 8), " + p.f + ")"
+	}
+	code, perr := ParseSourceCode([]byte(src))
+	vpAssert("C11/nested/parses", perr == nil)
+	if perr != nil {
+		return
+	}
+	v, err := r.Resolve(context.Background(), code.Expression)
+	want := p.want
+	if pre == 2 {
+		want = append([]string{"g2(9,8)"}, want...)
+	}
+	vpObserve("nested", src, strings.Join(log, ";"))
+	vpAssert("C11/nested/no-error", err == nil)
+	vpAssert("C11/nested/each-call-once-left-to-right-with-its-own-arguments", strings.Join(log, ";") == strings.Join(want, ";"))
+	f, ok := v.(float64)
+	vpAssert("C11/nested/value", ok && f == p.val)
+	vpReach("C11/nested/done")
+}
+
+func init() {
+	vpHarnesses["VP_C11_trunc"] = VP_C11_trunc
+}
+
+// C11/trunc: numbers become Go integers by truncation toward zero and floats by
+// the nearest value, for a symbolic coefficient (the bridge goes through binary
+// floating point: decided by the solver's floating-point theory).
+func VP_C11_trunc() {
+	B, E := vpParam("B"), vpParam("E")
+	c := vpBits("c", B)
+	e := vpChoice("e", 2*E+1) - E
+	neg := vpBool("neg")
+	x := vpNum{neg: neg, coef: c, exp: e}
+	var gotInt int
+	var gotI64 int64
+	var gotF float64
+	calls := 0
+	data := map[string]interface{}{
+		"x":  x.big(),
+		"hi": func(n int) (int, error) { calls++; gotInt = n; return 0, nil },
+		"hl": func(n int64) (int, error) { calls++; gotI64 = n; return 0, nil },
+		"hf": func(f float64) (int, error) { calls++; gotF = f; return 0, nil },
+	}
+	which := vpChoice("fn", 3)
+	r := NewRunner()
+	r.SetThis(data)
+	_, err := r.Resolve(context.Background(), &CallExpression{Expression: vpId([]string{"hi", "hl", "hf"}[which]), Arguments: vpList(vpId("x"))})
+	vpAssert("C11/trunc/no-error", err == nil)
+	vpAssert("C11/trunc/called-once", calls == 1)
+	if err != nil || calls != 1 {
+		return
+	}
+	// |x| truncated toward zero, computed in integers
+	mag := c
+	if e < 0 {
+		mag = c / uint64(vpPow10[-e])
+	} else {
+		mag = c * uint64(vpPow10[e])
+	}
+	want := int64(mag)
+	if neg {
+		want = -want
+	}
+	switch which {
+	case 0:
+		vpAssert("C11/trunc/int-truncates-toward-zero", int64(gotInt) == want)
+	case 1:
+		vpAssert("C11/trunc/int64-truncates-toward-zero", gotI64 == want)
+	case 2:
+		// the nearest float64: for an integer-valued x below 2^53 it is exact
+		if e >= 0 {
+			vpAssert("C11/trunc/float-of-integer-is-exact", gotF == float64(want))
+		} else {
+			// within one unit in the last place of the quotient: floor(|x|) <= |f| <= floor(|x|)+1
+			f := gotF
+			if neg {
+				f = -f
+			}
+			vpAssert("C11/trunc/float-brackets-the-value", f >= float64(mag) && f <= float64(mag+1))
+		}
+	}
+	vpReach("C11/trunc/done")
 }
